@@ -120,6 +120,9 @@ func (s *State) ParseConfig(data []byte, fName string) (
 	if err != nil {
 		return nil, err
 	}
+	if err := checkNoNull(config); err != nil {
+		return nil, err
+	}
 	if path.Ext(fName) == ".raw" {
 		if err := checkRaw(config); err != nil {
 			return nil, err
@@ -127,6 +130,36 @@ func (s *State) ParseConfig(data []byte, fName string) (
 	}
 	err = checkConfigValidity(config)
 	return config, err
+}
+
+// JSON value 'null' as element of a list results in nil pointer.
+func checkNoNull(c *NsxConfig) error {
+	for _, p := range c.Policies {
+		if p == nil {
+			return fmt.Errorf("Unexpected 'null' in list of policies")
+		}
+		for _, r := range p.Rules {
+			if r == nil {
+				return fmt.Errorf("Unexpected 'null' in rules of policy %s", p.Id)
+			}
+		}
+	}
+	for _, g := range c.Groups {
+		if g == nil {
+			return fmt.Errorf("Unexpected 'null' in list of groups")
+		}
+		for _, e := range g.Expression {
+			if e == nil {
+				return fmt.Errorf("Unexpected 'null' in expression of group %s", g.Id)
+			}
+		}
+	}
+	for _, s := range c.Services {
+		if s == nil {
+			return fmt.Errorf("Unexpected 'null' in list of services")
+		}
+	}
+	return nil
 }
 
 func checkRaw(c *NsxConfig) error {
